@@ -1,6 +1,6 @@
 ---------------------------- MODULE MC_ColumnMap ----------------------------
 (* Model-checking wrapper of ColumnMap.                                       *)
-(* Rows are ROW CLASSES 1..NRows: the harness instantiates them, per          *)
+(* Rows are ROW CLASSES (MRows, a subset of 1..6): the harness instantiates them, per          *)
 (* scenario, around a pre-built column of key "a" (e.g. 1 = base-1, 2 = base, *)
 (* 3 = mid, 4 = top, 5 = top+1, 6 = far; or the break-even rows of            *)
 (* dense_is_smaller).  The first step of every script is "Load": the harness  *)
@@ -14,12 +14,12 @@
 (* sequences, not abstract states, are the right thing to cover).             *)
 EXTENDS ColumnMap, Json
 
-CONSTANTS NRows, MKeys, MVals, LoadLo, LoadN, MaxHist, Legacy
+CONSTANTS MRows, MKeys, MVals, LoadLo, LoadN, MaxHist, Legacy
 
 VARIABLE hist
 vars == <<m, fills, hist>>
 
-Rows == 1..NRows
+Rows == MRows        \* a subset of the six row classes 1..6
 LoadRec == [op |-> "Load", key |-> "a", lo |-> LoadLo, n |-> LoadN, step |-> 1, kind |-> "int"]
 
 Init == /\ m = <<>>
